@@ -195,9 +195,10 @@ IO_BASE = """CONSTANTS
 
 ERRKINDS = '{"Other", "Interrupted", "WouldBlock", "ConnectionReset", "TimedOut"}'
 
-def io_recv_cfg(msg, nmsgs, chunk, faults, policy, record, arbitrary=False, rawlen=0, live=False, cap=1000):
+def io_recv_cfg(msg, nmsgs, chunk, faults, policy, record, arbitrary=False, rawlen=0, live=False, cap=1000, retain=0):
     name = "MCIoRecv_%s_n%d_c%d_f%d_%s%s%s%s.cfg" % (msg, nmsgs, chunk, faults, policy, "_arb%d" % rawlen if arbitrary else "", "_capx%d" % cap if cap < 1000 else "", "_live" if live else "")
-    txt = "SPECIFICATION %s\n" % ("SpecP" if record else "Spec") + IO_BASE + """  MsgId = "%s"
+    name = name.replace(".cfg", ("_rt%d" % retain if retain else "") + ".cfg")
+    txt = "SPECIFICATION %s\n" % ("SpecP" if record else "Spec") + IO_BASE + ("  RetainMax = %d\n" % retain) + """  MsgId = "%s"
   NMsgs = %d
   RawLen = %d
   RawAlphabet = {0, 1, 2, 3, 4, 255}
@@ -240,8 +241,8 @@ def io_send_cfg(msg, nmsgs, chunk, faults, retry, record, live=False):
     txt += "CHECK_DEADLOCK FALSE\n"
     return {"type": "tlc-only" if not record else "tlc-replay", "module": "MCIoSend", "cfg": name, "cfg_text": txt}
 
-def io_async_cfg(msg, nmsgs, pipecap, chunk, spur, record, live=False):
-    name = "MCIoAsync_%s_n%d_p%d_c%d_s%d%s.cfg" % (msg, nmsgs, pipecap, chunk, spur, "_live" if live else "")
+def io_async_cfg(msg, nmsgs, pipecap, chunk, spur, record, live=False, cancel=0):
+    name = "MCIoAsync_%s_n%d_p%d_c%d_s%d%s%s.cfg" % (msg, nmsgs, pipecap, chunk, spur, "_x%d" % cancel if cancel else "", "_live" if live else "")
     txt = "SPECIFICATION %s\n" % ("SpecP" if record else "Spec") + IO_BASE + """  MsgId = "%s"
   NMsgs = %d
   MsgT <- MT
@@ -250,8 +251,9 @@ def io_async_cfg(msg, nmsgs, pipecap, chunk, spur, record, live=False):
   PipeCap = %d
   ChunkMax = %d
   SpurMax = %d
+  CancelMax = %d
   Record = %s
-""" % (msg, nmsgs, pipecap, chunk, spur, "TRUE" if record else "FALSE")
+""" % (msg, nmsgs, pipecap, chunk, spur, cancel, "TRUE" if record else "FALSE")
     if record:
         txt += "VIEW View\n"
     txt += "INVARIANTS WindowInv HeadInv GuardInside DeliveredInOrder ConsumedWhole ClosedMeansAll FlushBeforeDone PipeBounded\n"
@@ -283,6 +285,7 @@ PLANS.update({
                    + [io_recv_cfg(m, n, c, 0, "code", True) for m, n, c in [("UE6", 3, 24), ("US2", 2, 16), ("V_u8_u32", 2, 16), ("X_vu8_u8", 2, 8)]]
                    + [io_recv_cfg("UE6", 3, 12, 0, "code", True, cap=c) for c in (0, 4, 12)]      # capacities down to the largest message
                    + [io_recv_cfg("US2", 3, 12, 0, "code", True, cap=0)]
+                   + [io_recv_cfg("UE6", 3, 12, 0, "code", True, cap=4, retain=1), io_recv_cfg("UE6", 3, 24, 0, "any", False, live=True, retain=2)]   # RecvGuard::retain
                    + [io_recv_cfg(m, 2, 16, 0, "code", True) for m in ("UE11", "UE10", "UE2")]       # variants with odd payloads / interior padding
                    + [io_send_cfg(m, 3, 12, 0, 0, True) for m in ["UE6", "US2", "X_vu8_u8", "UE11"]],
                    [io_recv_cfg("UE6", 3, 24, 0, "any", False, live=True), io_send_cfg("UE6", 3, 12, 0, 0, False, live=True)]
@@ -302,12 +305,13 @@ PLANS.update({
                    "and completion of both futures under fair polling; every finished poll prints its path (schedule, chunk limits, spurious Pendings), replayed with a hand-driven poller against the real async Sender/Receiver; "
                    "after the path both tasks are polled fairly and must complete.",
                    "one path per finished poll of the model: every interleaving of polls of the two tasks, every chunk limit up to ChunkMax, every placement of up to SpurMax spurious Pendings on poll_write / poll_flush / poll_read, pipe capacities 1, 2, 3, 5, 17; non-trivial = all",
-                   ["ioasync.polls.*complete", "ioasync.polls.spurious.*", "ioasync.polls.prefix", "ioasync.recv-paths"],
+                   ["ioasync.polls.*complete", "ioasync.polls.spurious.*", "ioasync.polls.prefix", "ioasync.recv-paths", "ioasync.polls.*cancel*"],
                    [io_async_cfg("UE6", 2, 3, 3, 1, False, live=True)]
                    + [io_async_cfg("UE6", 2, pc, ch, sp, True) for pc, ch, sp in [(1, 1, 1), (2, 2, 1), (3, 3, 2), (5, 5, 2), (17, 8, 1)]]
                    + [io_async_cfg("US2", 2, pc, ch, 1, True) for pc, ch in [(3, 3), (5, 4)]]
                    + [io_async_cfg("X_vu8_u8", 3, 2, 2, 1, True)]
                    + [io_async_cfg("UE6", 4, 17, 12, 0, True)]                                     # stream longer than the receive buffer, lagging receiver
+                   + [io_async_cfg("UE6", 2, 3, 3, 1, True, cancel=1), io_async_cfg("UE6", 2, 3, 3, 1, False, live=True, cancel=2)]   # a suspended recv future dropped, recv called again
                    + [io_recv_cfg("UE6", 3, 12, 0, "code", True, cap=c) for c in (0, 4)]           # async receiver alone: every chunking, tight capacities
                    + [io_recv_cfg("US2", 3, 12, 0, "code", True, cap=0)],
                    [io_async_cfg("UE6", 2, 3, 3, 2, False, live=True)]
@@ -315,10 +319,12 @@ PLANS.update({
                    + [io_async_cfg(m, 2, pc, ch, 2, True) for m in ["US2", "UE1", "V_u8_u32"] for pc, ch in [(1, 1), (3, 3), (5, 4)]]
                    + [io_async_cfg("X_vu8_u8", 3, pc, 2, 2, True) for pc in [1, 2, 5]]
                    + [io_async_cfg("UE6", 5, 17, 12, 1, True)]
+                   + [io_async_cfg("UE6", 3, pc, 3, 1, True, cancel=2) for pc in (2, 5)] + [io_async_cfg("UE6", 2, 3, 3, 1, False, live=True, cancel=2)]
                    + [io_recv_cfg(m, 3, 12, 0, "code", True, cap=c) for m in ("UE6", "US2", "V_u8_u32") for c in (0, 4, 8)]),
     "C10": io_plan(IO_TEXT, "receiver model fed arbitrary streams: all strings over {0,1,2,255} up to RawLen, a valid stream with one byte replaced (first 12 positions x 3 values), a valid stream truncated at every position; every chunking; non-trivial = all",
                    ["iorecv.arbitrary.*"],
-                   [io_recv_cfg(m, 2, 4, 0, "code", True, arbitrary=True, rawlen=r) for m, r in [("UE6", 4), ("X_vu8_u8", 4), ("US2", 3), ("V_u8_u16", 3), ("UE11", 3), ("UE2", 3)]],
+                   [io_recv_cfg(m, 2, 4, 0, "code", True, arbitrary=True, rawlen=r) for m, r in [("UE6", 4), ("X_vu8_u8", 4), ("US2", 3), ("V_u8_u16", 3), ("UE11", 3), ("UE2", 3)]]
+                   + [io_recv_cfg("UE6", 2, 4, 0, "code", True, arbitrary=True, rawlen=3, retain=1)],
                    [io_recv_cfg(m, 2, 6, 0, "code", True, arbitrary=True, rawlen=r) for m, r in [("UE6", 5), ("X_vu8_u8", 5), ("US2", 4), ("UE1", 4), ("X_s8_u16", 4)]]),
 })
 
